@@ -408,7 +408,8 @@ def doSetInstCore (w : World) (i : InstId) (x : Name) (lit : Lit) : World × Opt
         else (w2.setInst i fun I' => { I' with values := aset I'.values x v }, none)
 
 /-- `K.x = v`: copy-on-write of an inherited Parameter (shallow: the copy shares every slot object
-    with the ancestor's Parameter), installed *before* the value is validated
+    with the ancestor's Parameter), installed *before* the value is validated; when the value is
+    rejected nothing was stored and the copy is removed again — the class goes on inheriting
     -- src: parameterized.py ParameterizedMetaclass.__setattr__, Parameter.__set__ (obj is None) -/
 def doSetClsCore (w : World) (k : ClsId) (x : Name) (lit : Lit) : World × Option Err :=
   match w.resolve k x with
@@ -418,7 +419,7 @@ def doSetClsCore (w : World) (k : ClsId) (x : Name) (lit : Lit) : World × Optio
     let p := if k' = k then P else { P with owner := .cls k }
     let w1 := ({ w with cells := cells1 }).setOwn k x p
     match validate w1.cells p v with
-    | .error e => (w1, some e)
+    | .error e => ({ w with cells := cells1 }, some e)
     | .ok cells2 => (({ w1 with cells := cells2 }).setOwn k x { p with default := v }, none)
 
 /-- a reference without a value is outside the fragment except as constructor keyword -/
